@@ -29,11 +29,13 @@ NP == Len(PoseSeq)
 PoseAt(i) == PoseSeq[((i - 1) % NP) + 1]
 PointAt(i) == PSeq[((i - 1) % Len(PSeq)) + 1]
 
-OneToMany(i, N, off, form) ==
+\* et: element type of the supplied points - Python floats / float64, or Python ints / an INTEGER array (the points
+\* are integers; the result is real)
+OneToMany(i, N, off, form, et) ==
   /\ call.op = "none"
   /\ (form # "matrix" => N = 1)
   /\ LET m == PoseAt(i) IN
-     /\ call' = [op |-> "one-to-many", pose |-> Hom(m), pts |-> [j \in 1..N |-> PointAt(off + j)], form |-> form]
+     /\ call' = [op |-> "one-to-many", pose |-> Hom(m), pts |-> [j \in 1..N |-> PointAt(off + j)], form |-> form, et |-> et]
      /\ out'  = [j \in 1..N |-> Act(m, Pt(PointAt(off + j)))]
      /\ outR' = [j \in 1..N |-> Act(Rot(m), Pt(PointAt(off + j)))]
 
@@ -75,7 +77,7 @@ Next ==
   \/ \E tag \in TinyTags : \E ax \in TinyAxes : \E off \in 0..2 : TinyRot(tag, ax, off)
   \/ \E i \in 1..NP : \E k \in 1..NP : \E off \in 0..1 : \E mode \in {"(XY)p", "X(Yp)", "Xinv(Xp)"} :
         ComposeApply(i, k, off, mode)
-  \/ \E i \in 1..NP : \E N \in 1..MaxN : \E off \in 0..2 : \E f \in Forms \cup {"matrix"} : OneToMany(i, N, off, f)
+  \/ \E i \in 1..NP : \E N \in 1..MaxN : \E off \in 0..2 : \E f \in Forms \cup {"matrix"} : \E et \in {"float", "int"} : OneToMany(i, N, off, f, et)
   \/ \E i \in 1..NP : \E k \in 2..MaxK : \E off \in 0..2 : \E f \in Forms : ManyToOne(i, k, off, f)
 
 Spec == Init /\ [][Next]_vars
